@@ -574,6 +574,22 @@ P_C18(pre, e) ==
                 \E j \in DOMAIN e.reqs : e.reqs[j].o = e.txcalls[i].o /\ e.reqs[j].kind = e.txcalls[i].kind /\ e.reqs[j].r = "REFUSE",
                 <<e.txcalls[i].kind, e.txcalls[i].o>>))
 
+
+-----------------------------------------------------------------------------
+(* C12, simulated execution: after every execution handler each order of the package can progress *)
+P_C12S(pre, e) ==
+    e.ev = "exec" =>
+    LET post == e.st IN
+    /\ Ck("C12", "NoEscapingException", e.a.err = "", <<e.a.kind, e.a.orders, e.a.err>>)
+    /\ \A o \in SeqToSet(PkgOrders(pre, e.a.orders)) :
+         Has(post.ord, o) => Ck("C12", "NoneStranded", post.ord[o].status \in {"EXECUTABLE", "COMPLETE"}, <<o, e.a.kind, post.ord[o].status>>)
+    /\ Ck("C12", "NoTradeLeftPending", TradePendingLeft(post) = {}, TradePendingLeft(post))
+    /\ (e.a.err = "" => Ck("C12", "CountsExact", Step(pre, e, Oracle(e)).tx = post.tx, <<e.a.kind, e.a.orders, post.tx>>))
+    \* each instruction is applied to its own order: the order-level outcome is the one the specification derives
+    /\ (e.a.err = "" => Ck("C12", "ReportToOwner",
+          \A o \in SeqToSet(e.a.orders) : Has(post.ord, o) => post.ord[o].status = Step(pre, e, Oracle(e)).ord[o].status,
+          {o \in SeqToSet(e.a.orders) : Has(post.ord, o) /\ post.ord[o].status # Step(pre, e, Oracle(e)).ord[o].status}))
+
 -----------------------------------------------------------------------------
 StepOK(pre, e) ==
     /\ ("R" \in Props => (Conforms(pre, e) /\ (e.ev = "cb" => ReqVerdicts(pre, e.reqs, 1))))
@@ -587,6 +603,7 @@ StepOK(pre, e) ==
     /\ ("C01" \in Props => P_C01(pre, e))
     /\ ("C02" \in Props => P_C02(pre, e))
     /\ ("C18" \in Props => P_C18(pre, e))
+    /\ ("C12" \in Props => P_C12S(pre, e))
     /\ ("C07" \in Props => P_C07T(pre, e))
     /\ ("C03" \in Props => P_C03(pre, e))
     /\ ("C04" \in Props => P_C04(pre, e))
